@@ -219,12 +219,34 @@ def rules(ctx, P, L, exc, suffix=''):
     run = P.fn('jls_twr_run')
     pops = list(run.calls('jls_mrb_pop'))
     peeks = []
+    popsrc = []
     for ev in run.stores():
         lhs, rhs, o = ev.store_parts()
         if rhs is not None and any(n_.get('op') == 'call' and n_.get('callee') == 'jls_mrb_peek' for n_ in walk(rhs)):
             peeks.append((ev, strip_casts(lhs).get('name')))
+        if rhs is not None and any(n_.get('op') == 'call' and n_.get('callee') == 'jls_mrb_pop' for n_ in walk(rhs)):
+            popsrc.append((ev, strip_casts(lhs).get('name')))
+    if not peeks and not popsrc:
+        raise AnalysisBroken('consumer anchor: jls_twr_run takes no message from the ring (no jls_mrb_peek / jls_mrb_pop result is used)')
+    for ev, v in popsrc:
+        # the pointer returned by pop refers to a slot that is already released
+        def on_use(e2, facts, v=v, ev=ev):
+            if e2 is ev:
+                return None
+            if e2.k in ('store', 'decl'):
+                l0 = strip_casts(e2.store_parts()[0])
+                if l0.get('op') == 'ref' and l0.get('name') == v and not any(n_.get('op') == 'ref' and n_.get('name') == v for n_ in walk(e2.store_parts()[1] or {})):
+                    return 'stop'
+            if e2.e is not None and e2.k in ('call', 'store', 'decl', 'ret') and any(n_.get('op') == 'ref' and n_.get('name') == v for n_ in walk(e2.e)):
+                # a plain NULL test is not a use; everything else is
+                return 'target'
+            return None
+        w = find_path(run, ev, on_use)
+        ctx.ob('C06.6', w is None, run.name, 'message taken with jls_mrb_pop is not used after its slot was released', ev.where(),
+               'not used' if w is None else 'the consumer processes a message whose ring slot is already released (a producer can overwrite it while it is being written to the file)',
+               w.render() if w else None)
     if not peeks:
-        raise AnalysisBroken('consumer anchor: no jls_mrb_peek assignment in jls_twr_run')
+        peeks = popsrc
     msgvar = peeks[0][1]
     tracked = {msgvar}
     for _ in range(3):
@@ -359,3 +381,18 @@ def rules(ctx, P, L, exc, suffix=''):
                 ctx.ob('C06.9', need in must or why is not None, fn.name, 'store to %s' % l0['field'], ev.where(),
                        '%s held' % need if need in must else (why or 'ticket stored without %s' % need))
     ctx.floor('flush ticket stores', n9, 3)
+    for fn in fns:
+        for b in fn.blocks.values():
+            items = [(ev.e, ev) for ev in b.events if ev.e is not None]
+            if b.cond is not None:
+                items.append((b.cond, None))
+            for e, ev in items:
+                skip = None
+                if ev is not None and ev.k == 'store' and ev.store_parts()[2] == '=':
+                    skip = strip_casts(ev.store_parts()[0]).get('id')
+                for nd in walk(e):
+                    if nd.get('op') == 'member' and nd.get('field') == 'flush_send_id' and nd.get('id') != skip:
+                        must, may = (L.state_before(fn, ev) if ev is not None else L.state_at_cond(fn, b))
+                        why = None if MSG in must else (thread_not_running(fn, ev) if ev is not None else None)
+                        ctx.ob('C06.9', MSG in must or why is not None, fn.name, 'load of flush_send_id', '%s:%d' % (fn.file, nd.get('ln', 0)),
+                               'message lock held' if MSG in must else (why or 'the producers\' ticket counter is read without the message lock'))
